@@ -100,7 +100,9 @@ func init() {
 
 	addProp(&Prop{ID: "C03", DesignRef: "DESIGN.md §4 C03", Runs: []HarnessRun{idxConsume, segConsume, qConsume, cursor,
 		{Name: "h_step.Delete", Quick: B{"segs": 2, "recs": 2, "vers": 1, "profs": 1, "paramsets": 1, "rmindex": 1, "deletes": 1}, Thorough: B{"segs": 3, "recs": 2, "vers": 2, "profs": 1, "paramsets": 1, "rmindex": 1, "deletes": 2},
-			Split: []SplitDim{{"layout", numLayouts}, {"ver", same("vers")}, {"prof", same("profs")}, {"params", same("paramsets")}, {"rmindex", same("rmindex")}, {"session", two}}, Reach: []string{"head-tail-deleted", "head-rebased", "reader-segment-emptied", "read-before-delete"}}}})
+			Split: []SplitDim{{"layout", numLayouts}, {"ver", same("vers")}, {"prof", same("profs")}, {"params", same("paramsets")}, {"rmindex", same("rmindex")}, {"session", two}}, Reach: []string{"head-tail-deleted", "head-rebased", "reader-segment-emptied", "read-before-delete"}},
+		{Name: "h_log.Session", Quick: B{"segs": 2, "recs": 1, "vers": 1, "profs": 1, "calls": 2, "fix.view": 2}, Thorough: B{"segs": 2, "recs": 2, "vers": 2, "profs": 1, "calls": 2, "fix.view": 2},
+			Split: []SplitDim{{"layout", numLayouts}, {"ver", same("vers")}, {"prof", same("profs")}, {"roll", two}, {"calls", same("calls")}, {"gc", two}}, Reach: []string{"session", "gc-then-read"}}}})
 	addProp(&Prop{ID: "C04", DesignRef: "DESIGN.md §4 C04", Runs: []HarnessRun{idxGet, segGet, qGet}})
 	qTime := HarnessRun{Name: "h_log.QueryTime", Quick: dirQ, Thorough: dirT, Split: layoutSplit,
 		Reach: []string{"index-rebuilt", "no-live-message", "empty-head", "after-all", "equal-run", "multi-segment", "empty-head-with-older-segments"}}
@@ -247,7 +249,7 @@ func init() {
 		{Name: "h_locks.ReadonlySession", Quick: dirQ, Thorough: dirT, Split: layoutSplit, Reach: []string{"readonly-session", "without-index-files"}},
 	}, Assumptions: []string{"flock(2) semantics as modelled: per open file description, exclusive excludes all, shared excludes exclusive"}})
 	addProp(&Prop{ID: "C20", DesignRef: "DESIGN.md §4 C20", Runs: []HarnessRun{
-		{Name: "h_backup.Backup", Quick: B{"segs": 2, "recs": 1, "vers": 2, "profs": 1, "rounds": 1, "pubs": 2}, Thorough: B{"segs": 2, "recs": 2, "vers": 2, "profs": 1, "rounds": 2, "pubs": 2},
+		{Name: "h_backup.Backup", Quick: B{"segs": 2, "recs": 1, "vers": 2, "profs": 1, "rounds": 1, "pubs": 2}, Thorough: B{"segs": 2, "recs": 2, "maxmsgs": 3, "vers": 2, "profs": 1, "rounds": 1, "pubs": 2},
 			Split: append(append([]SplitDim{}, layoutSplit...), SplitDim{"rmindex", two}, SplitDim{"vialog", two}),
 			Reach: []string{"log-backup", "dir-backup", "repeated-backup", "source-without-index-files"}},
 	}, Assumptions: []string{"file modification times are arbitrary non-decreasing clock values (two writes may get the same mtime); Chtimes sets them exactly"}})
@@ -256,6 +258,12 @@ func init() {
 	crashSplit := []SplitDim{{"layout", numLayouts}, {"ver", same("vers")}, {"prof", same("profs")}, {"crashtap", tapsN}}
 	crash := func(name string, mode int, q, t B, reach ...string) HarnessRun {
 		q["crash_mode"], t["crash_mode"] = mode, mode
+		if _, ok := q["conc_cap"]; !ok {
+			q["conc_cap"] = 200
+		}
+		if _, ok := t["conc_cap"]; !ok {
+			t["conc_cap"] = 200
+		}
 		return HarnessRun{Name: "h_crash." + name, Quick: q, Thorough: t, Split: crashSplit, Reach: reach}
 	}
 	addProp(&Prop{ID: "C05", DesignRef: "DESIGN.md §4 C05", Runs: []HarnessRun{
@@ -268,7 +276,7 @@ func init() {
 	addProp(&Prop{ID: "C06", DesignRef: "DESIGN.md §4 C06", Runs: []HarnessRun{
 		crash("Publish", 6, B{"segs": 2, "recs": 1, "maxmsgs": 1, "vers": 1, "profs": 1, "publishes": 1, "batch": 1, "taps": 32}, B{"segs": 2, "recs": 1, "vers": 2, "profs": 1, "publishes": 2, "batch": 1, "taps": 48}, "crashed", "completed", "synced"),
 		crash("Publish", 6, B{"segs": 1, "recs": 1, "vers": 1, "profs": 1, "publishes": 2, "fix.publishes": 1, "fix.roll": 1, "batch": 1, "taps": 40}, B{"quick_skip": 0, "segs": 1, "recs": 1, "vers": 1, "profs": 1, "publishes": 2, "batch": 1, "taps": 40}, "synced"),
-		crash("Delete", 6, B{"segs": 2, "recs": 1, "vers": 1, "profs": 1, "taps": 40}, B{"segs": 2, "recs": 2, "maxmsgs": 3, "vers": 1, "profs": 1, "taps": 48}, "crashed", "applied"),
+		crash("Delete", 6, B{"segs": 2, "recs": 2, "maxmsgs": 2, "vers": 1, "profs": 1, "taps": 40, "conc_cap": 200}, B{"segs": 2, "recs": 2, "maxmsgs": 3, "vers": 1, "profs": 1, "taps": 48}, "crashed", "applied"),
 	}, Assumptions: []string{"tail-loss model of the property: at the crash every file is independently cut back to any length between its last fsynced length and its current length (the first 8 bytes of a file are atomic); directory operations are durable in program order"}})
 	// C18: notify and the blocking wrapper under the schedule variable
 	three := func(map[string]int) int { return 3 }
